@@ -9,6 +9,8 @@ From TT Require Import Lib.Base Lib.Sort Model.Reactor Model.Spinner.
 Record runspec := mkRun {
   r_clear : bool;          (* clear_junk() is called first *)
   r_pre : list nat;        (* handlers installed for SIGINT, SIGTERM, SIGCHLD before the call *)
+  r_hooks : list hook;     (* start-up hooks somebody registered with reactor.callWhenRunning before the call, in
+                              registration order: they fire when the reactor starts, before the function is called *)
   r_stop : option nat;     (* Some k: before the call somebody makes reactor.stop the instance-level override k
                               (k = 0: removes any override, the stock method shows again); None: left as it is *)
   r_timeout : time;
@@ -85,14 +87,28 @@ Definition decided (f : fn) (E : list nat) : res value exc :=
 (* "exactly as the timing dictates": a synchronous result is the result; otherwise at least one of the three
    ran, whatever ran was due at the earliest of their instants (simultaneous ones in either order, as the
    reactor chose), and the result is the one that decides *)
-Definition allowed (T : time) (f : fn) (order : list nat) (r : res value exc) : bool :=
+Definition is_hstop (h : hook) : bool := match h with HStop => true | _ => false end.
+(* the reactor is stopped while it starts up, before the function has been called *)
+Definition stopped_early (hs : list hook) : bool := existsb is_hstop hs.
+
+(* `early`: the reactor was stopped during start-up.  The function is still called (every start-up hook fires) and
+   what it returns synchronously is the result; a Deferred that has not fired by then never gets the chance *)
+Definition allowed (early : bool) (T : time) (f : fn) (order : list nat) (r : res value exc) : bool :=
   match f_shape f with
   | Sync _ o => result_eqb r (result_of o)
-  | _ => if f_stop_now f then result_eqb r (Raised ENoResult)
+  | _ => if f_stop_now f || early then result_eqb r (Raised ENoResult)
          else let E := crash_toks order in
               negb (Nat.eqb (length E) 0)
               && forallb (fun k => option_eqb Nat.eqb (ev_time T f k) (Some (earliest (events T f)))) E
               && result_eqb r (decided f E)
+  end.
+
+(* the delayed calls the start-up hooks left with the reactor *)
+Fixpoint hook_tokens (j : nat) (hs : list hook) : list nat :=
+  match hs with
+  | [] => []
+  | HSched _ :: r => tok_hook j :: hook_tokens (S j) r
+  | _ :: r => hook_tokens (S j) r
   end.
 
 (* everything the function left with the reactor *)
@@ -153,11 +169,11 @@ Definition run_okb (stale : list nat) (stop0 : nat) (rs : runspec) (o : robs) : 
       && list_eqb Nat.eqb (o_ran o) [] && list_eqb Nat.eqb (o_order o) []
       && list_eqb Bool.eqb (o_reentry o) []
   | [] =>
-      allowed (r_timeout rs) (r_fn rs) (o_order o) (o_res o)
+      allowed (stopped_early (r_hooks rs)) (r_timeout rs) (r_fn rs) (o_order o) (o_res o)
       && list_eqb Nat.eqb (o_ran o) (isort Nat.leb (filter not_timeout_tok (o_order o)))
       && reentry_okb (r_fn rs) (o_reentry o)
       (* every leftover of the function either ran or is reported as junk, once *)
-      && perm_eqb (o_ran o ++ filter not_timeout_tok (o_junk o)) (sched_tokens (r_fn rs))
+      && perm_eqb (o_ran o ++ filter not_timeout_tok (o_junk o)) (hook_tokens 0 (r_hooks rs) ++ sched_tokens (r_fn rs))
       && own_junk_okb o
   end.
 
@@ -174,10 +190,10 @@ Fixpoint runs_okb (prev_junk : list nat) (prev_stop : nat) (rss : list runspec) 
 Definition spec_okb (i : input) (o : obs) : bool := runs_okb [] 0 (i_runs i) o.
 
 (* ---- readable form ---- *)
-Definition Allowed (T : time) (f : fn) (order : list nat) (r : res value exc) : Prop :=
+Definition Allowed (early : bool) (T : time) (f : fn) (order : list nat) (r : res value exc) : Prop :=
   match f_shape f with
   | Sync _ o => r = result_of o
-  | _ => if f_stop_now f then r = Raised ENoResult
+  | _ => if f_stop_now f || early then r = Raised ENoResult
          else let E := crash_toks order in
               E <> []
               /\ (forall k, In k E -> exists t, ev_time T f k = Some t /\ In t (map fst (events T f))
@@ -193,10 +209,11 @@ Definition Run_spec (stale : list nat) (stop0 : nat) (rs : runspec) (o : robs) :
   Clean stop0 rs o /\
   match stale with
   | _ :: _ => o_res o = Raised EStaleJunk /\ o_junk o = stale /\ o_ran o = [] /\ o_order o = [] /\ o_reentry o = []
-  | [] => Allowed (r_timeout rs) (r_fn rs) (o_order o) (o_res o)
+  | [] => Allowed (stopped_early (r_hooks rs)) (r_timeout rs) (r_fn rs) (o_order o) (o_res o)
           /\ o_ran o = isort Nat.leb (filter not_timeout_tok (o_order o))
           /\ (forall b, In b (o_reentry o) -> b = true) /\ length (f_reenter (r_fn rs)) <= length (o_reentry o)
-          /\ (forall t, count (o_ran o ++ filter not_timeout_tok (o_junk o)) t = count (sched_tokens (r_fn rs)) t)
+          /\ (forall t, count (o_ran o ++ filter not_timeout_tok (o_junk o)) t
+                         = count (hook_tokens 0 (r_hooks rs) ++ sched_tokens (r_fn rs)) t)
           /\ (In tok_timeout (o_junk o) -> o_res o = Raised ENoResult)
   end.
 
